@@ -413,9 +413,15 @@ def c08(scn, out, tables, c, rn=None):
 
 
 # ------------------------------------------------------------------------------------------------ C07
-def pdd_params(scn, n):
+def pdd_params(scn, n, t=None):
+    """(Pmin, Preq, exponent) of junction n - at time t when the scenario changes a junction's own parameter during the run"""
     o = scn['options']
-    p = n.get('pdd') or {}
+    p = dict(n.get('pdd') or {})
+    if t is not None:
+        key = {'minimum_pressure': 'pmin', 'required_pressure': 'preq', 'pressure_exponent': 'pexp'}
+        for ch in sorted(scn.get('pdd_changes', []), key=lambda c_: c_['t']):
+            if ch['node'] == n['id'] and ch['t'] <= t:
+                p[key[ch['attr']]] = ch['value']
     return (p.get('pmin', o.get('pmin', 0.0)), p.get('preq', o.get('preq', 0.07)), p.get('pexp', o.get('pexp', 0.5)))
 
 
@@ -432,13 +438,13 @@ def c07(scn, tables, c, rn=None):
             D = rm.requested_demand(scn, n, t)
             d = float(nd['demand'][n['id']])
             p = float(nd['pressure'][n['id']])
-            pmin, preq, ex = pdd_params(scn, n)
+            pmin, preq, ex = pdd_params(scn, n, t)
             if D <= 1e-9:
                 if abs(d) > 1e-9:
                     viol.append(V('c07.zero_request', 'junction', 't=%d %s requested 0 but delivered %.3g' % (t, n['id'], d)))
                 continue
             frac = d / D
-            samples.setdefault(n['id'], []).append((p, frac, t))
+            samples.setdefault((n['id'], pmin, preq, ex), []).append((p, frac, t))
             lo_band = pmin < p < pmin + delta
             hi_band = preq - delta < p < preq
             if preq - pmin <= 2 * delta:
@@ -466,13 +472,12 @@ def c07(scn, tables, c, rn=None):
         if len(viol) > 6:
             return viol
     # history check: monotone and continuous in pressure per junction
-    for n in scn['nodes']:
-        if n['type'] != 'J' or n['id'] not in samples:
-            continue
-        pmin, preq, ex = pdd_params(scn, n)
+    nmap = dict((n_['id'], n_) for n_ in scn['nodes'])
+    for (nid_, pmin, preq, ex) in sorted(samples, key=str):
+        n = nmap[nid_]
         if preq - pmin <= 2 * delta:
             continue
-        ss = sorted(samples[n['id']])
+        ss = sorted(samples[(nid_, pmin, preq, ex)])
         for (p0, f0, t0), (p1, f1, t1) in zip(ss, ss[1:]):
             if f1 < f0 - 1e-8 - (tolr(rn, t0) + tolr(rn, t1)) / max(min(rm.requested_demand(scn, n, t0), rm.requested_demand(scn, n, t1)), 1e-9):
                 viol.append(V('c07.monotone', 'junction', '%s: d/D falls from %.9g (p=%.6g,t=%d) to %.9g (p=%.6g,t=%d)' % (n['id'], f0, p0, t0, f1, p1, t1)))
